@@ -242,7 +242,7 @@ def run(ck, facts, tier, only=None):
     O = Sym("param", "other")
     dates = Sym("dates", vkey(lo), vkey(hi))
     x = Sym("at", vkey(dates), Poly.atom("q0").key())
-    want = ("forall", vkey(Sym("zip", vkey(dates), vkey(dates))),
+    want = ("forall", vkey(dates),          # the two (equal) date ranges walked together are the range itself
             ("and", frozenset([("iff", frozenset([nnf(vkey(P("is_bus_day", S, x))), nnf(vkey(P("is_bus_day", O, x)))])),
                                ("iff", frozenset([nnf(vkey(P("is_settlement", S, x))), nnf(vkey(P("is_settlement", O, x)))]))])))
     eqs = [r for r in facts.all_fns() if r.get("trait_item") == "std::cmp::PartialEq::eq" and r["file"] == "rust/calendars/calendar.rs" and not r.get("mac")]
